@@ -60,12 +60,11 @@ def solve(formula, display=True, log=False, params={}):
         indices = linear[j].indices
         coeff = linear[j].data
         nz = len(indices)
-        left = sum([coeff[i] * xs[indices[i]] for i in range(nz)])
-        if not isinstance(left, Real):
-            if sense[j] == 1:
-                solver.Add(left == const[j])
-            else:
-                solver.Add(left <= const[j])
+        left = solver.Sum([coeff[i] * xs[indices[i]] for i in range(nz)])
+        if sense[j] == 1:
+            solver.Add(left == const[j])
+        else:
+            solver.Add(left <= const[j])
 
     if display:
         print('Being solved by OR-Tools...', flush=True)
